@@ -35,8 +35,9 @@ def in_known_region(case, kfs):
 
 def case_id(c):
     d = c["doc"]
-    imps = "+".join(f"{i['mod']}{'s' if i['semi'] else 'n'}{i['cmt'][0]}{'b' if i['blank'] else '-'}" for i in d["imports"])
-    return f"{d['layout']}/{imps or 'noimports'}/e{d['nexp']}"
+    imps = "+".join(f"{k}{'s' if i['semi'] else 'n'}{i['cmt'][0]}{'b' if i['blank'] else '-'}"
+                    for k, i in zip(d["keys"], d["imports"]))
+    return f"{d['layout']}/{imps or 'noimports'}/{'+'.join(c['exporters'])}"
 
 
 # ---------------------------------------------------------------------------------------------------
@@ -91,6 +92,7 @@ def histories(pool, n, rng):
             mods["E"] = E_NOFOO          # E exists at the end but does not export the class
         out.append({"id": f"hist{h}:{case_id(target)}", "src": "history", "text": target["text"], "mods": mods,
                     "cls": target["cls"], "exporters": target["exporters"], "last_semi": target["last_semi"],
+                    "already_named": target.get("already_named", False),
                     "layout": target["doc"]["layout"], "init": init, "hist": hist})
     return out
 
@@ -176,7 +178,7 @@ def assess(cases, tag, stats):
         if v["failed"]:
             failed.append((by_id[r["id"]], r, v))
     # every case must have produced at least one proposal of each kind, else the check would be vacuous there
-    silent = [c["id"] for c in cases if proposals_per_case.get(c["id"], 0) < 2]
+    silent = [c["id"] for c in cases if proposals_per_case.get(c["id"], 0) < 2 and not c.get("already_named")]
     stats["cases_without_both_proposals"] = stats.get("cases_without_both_proposals", 0) + len(silent)
     if silent:
         log(f"NOTE: {len(silent)} case(s) in '{tag}' did not get both a quick fix and a completion edit, e.g. {silent[:3]}")
@@ -252,7 +254,8 @@ def run(tier):
     # vacuity: the features the quantifier of the property names must all occur
     feat = {"imports_0": 0, "imports_1": 0, "imports_2": 0, "imports_3": 0, "last_import_without_semicolon": 0,
             "comment_line": 0, "comment_block": 0, "blank_line": 0, "imports_exporting_module_already": 0,
-            "two_exporters": 0}
+            "two_exporters": 0, "class_already_named_in_import_of_non_exporter": 0, "imports_nested_module": 0,
+            "last_import_nested_module_without_semicolon": 0, "nested_exporter": 0}
     for c in cases:
         imps = c["doc"]["imports"]
         feat[f"imports_{len(imps)}"] += 1
@@ -260,11 +263,17 @@ def run(tier):
         feat["comment_line"] += any(i["cmt"] == "line" for i in imps)
         feat["comment_block"] += any(i["cmt"] == "block" for i in imps)
         feat["blank_line"] += any(i["blank"] for i in imps)
-        feat["imports_exporting_module_already"] += any(i["mod"] == "A" for i in imps)
-        feat["two_exporters"] += c["doc"]["nexp"] == 2
+        feat["imports_exporting_module_already"] += any(i["mod"] in c["exporters"] for i in imps)
+        feat["two_exporters"] += len(c["exporters"]) == 2
+        feat["class_already_named_in_import_of_non_exporter"] += c["already_named"]
+        feat["imports_nested_module"] += any("." in i["mod"] for i in imps)
+        feat["last_import_nested_module_without_semicolon"] += c["last_dotted"] and not c["last_semi"]
+        feat["nested_exporter"] += any("." in m for m in c["exporters"])
         feat["layout_" + c["layout"]] = feat.get("layout_" + c["layout"], 0) + 1
     need = ["imports_0", "imports_1", "imports_2", "comment_line", "comment_block", "blank_line",
-            "imports_exporting_module_already", "two_exporters"] + ([] if kfs else ["last_import_without_semicolon"])
+            "imports_exporting_module_already", "two_exporters", "class_already_named_in_import_of_non_exporter",
+            "imports_nested_module", "nested_exporter"] + \
+           ([] if kfs else ["last_import_without_semicolon", "last_import_nested_module_without_semicolon"])
     if tier != "quick":
         need.append("imports_3")
     missing = [k for k in need if feat[k] == 0]
@@ -300,6 +309,7 @@ def run(tier):
         "proposals_that_only_move_a_comment_to_another_node": stats.get("comments_moved_only", 0),
         "cases_without_both_proposals": stats.get("cases_without_both_proposals", 0),
         "histories_where_server_holds_no_unresolved_error": stats.get("skipped_noerror", 0),
+        "requests_answered_without_edits_for_a_class_already_named_in_an_import": stats.get("skipped_nothing-proposed", 0),
         "requests_that_panicked": stats.get("skipped_panic", 0),
         "trace_states_checked_by_tlc": stats.get("tlc_generated", 0),
         "records_failing": len(failed) + len(failed_h), "violation_groups": groups,
@@ -308,7 +318,7 @@ def run(tier):
         "exhaustive": False,
     }
     write_evidence(PID, tier, "model_checking", coverage,
-                   ["the class used but not imported is `Foo`; the workspace has modules A, B, C (and E) of fixed texts",
+                   ["the class used but not resolved is `Foo`; the workspace has modules A, B, C, W, Lib.Util, Lib.Deep.Core (and E, Lib.Exp) of fixed texts",
                     "documents are ASCII; positions are (zero-based line, zero-based byte column)",
                     "a fresh ServerState on the edited text is 'the document after applying the edits' as the property means it",
                     "toplevels are compared through the printer (pretty_print_toplevel) after blanking out comments: the same program does not speak of comments; proposals that only move a comment to another node are counted",
